@@ -46,7 +46,8 @@ func (f *Rational) Call(s *slip.Scope, args slip.List, depth int) (result slip.O
 		result = ta
 	case slip.SingleFloat:
 		var z big.Rat
-		result = (*slip.Ratio)(z.SetFloat64(float64(ta)))
+		_ = z.SetFloat64(float64(ta))
+		result = ratReduce(&z)
 	case slip.DoubleFloat:
 		var z big.Rat
 		_ = z.SetFloat64(float64(ta))
